@@ -41,21 +41,47 @@ class Rows:
     __repr__ = key
 
 
+CELLS = ("fin", "nan", "+inf", "-inf")   # what one cell of a numeric column can hold, as far as the masks of this code can tell
+
+
+class Tok(str):
+    """The description of a mask, carrying its meaning where it is known: sem(cell) -> bool for a row given as {column: one of CELLS}."""
+    sem = None
+
+
+def _tok(text: str, sem) -> "Tok":
+    t = Tok(text)
+    t.sem = sem
+    return t
+
+
 class DMask(Stub):
-    def __init__(self, desc: str, rows: Rows, neg: bool = False, isin: Optional[Rows] = None):
-        self.desc, self.rows, self.neg, self.isin = desc, rows, neg, isin
+    def __init__(self, desc: str, rows: Rows, neg: bool = False, isin: Optional[Rows] = None, sem=None):
+        self.desc, self.rows, self.neg, self.isin, self.sem = desc, rows, neg, isin, sem
 
     def __invert__(self):
-        return DMask(self.desc, self.rows, not self.neg, self.isin)
+        return DMask(self.desc, self.rows, not self.neg, self.isin, self.sem)
+
+    def _sem(self):
+        if self.sem is None:
+            return None
+        f, neg = self.sem, self.neg
+        return (lambda c: not f(c)) if neg else f
 
     def token(self) -> str:
-        return ("not " if self.neg else "") + self.desc
+        return _tok(("not " if self.neg else "") + self.desc, self._sem())
+
+    def _both(self, o, op):
+        a, b = self._sem(), (o._sem() if isinstance(o, DMask) else None)
+        if a is None or b is None:
+            return None
+        return (lambda c: a(c) and b(c)) if op == "&" else (lambda c: a(c) or b(c))
 
     def __and__(self, o):
-        return DMask(f"({self.token()} & {o.token()})", self.rows)
+        return DMask(f"({self.token()} & {o.token()})", self.rows, sem=self._both(o, "&"))
 
     def __or__(self, o):
-        return DMask(f"({self.token()} | {o.token()})", self.rows)
+        return DMask(f"({self.token()} | {o.token()})", self.rows, sem=self._both(o, "|"))
 
     def any(self):
         raise Unsupported("mask.any() is data dependent")
@@ -74,14 +100,44 @@ class DCol(Stub):
         self.frame, self.col = frame, col
 
     def isna(self):
-        return DMask(f"isna({self.col})", self.frame.rows)
+        col = self.col
+        return DMask(f"isna({self.col})", self.frame.rows, sem=lambda c: c.get(col, "fin") == "nan")
 
     isnull = isna
 
     def notna(self):
-        return DMask(f"isna({self.col})", self.frame.rows, neg=True)
+        return ~self.isna()
 
     notnull = notna
+
+    def isin(self, values):
+        """column.isin([np.inf, -np.inf]) and the like: membership in a literal list of special values."""
+        vals = list(values) if isinstance(values, (list, tuple, set)) else None
+        if vals is None or not all(isinstance(v, float) for v in vals):
+            raise Unsupported("column.isin(...) other than a literal list of floats")
+        import math as _m
+        cells = set()
+        for v in vals:
+            if _m.isnan(v):
+                continue            # isin never matches NaN against NaN reliably; not counted
+            if _m.isinf(v):
+                cells.add("+inf" if v > 0 else "-inf")
+            else:
+                raise Unsupported("column.isin(...) with an ordinary number")
+        col = self.col
+        return DMask(f"isin({col},{sorted(cells)})", self.frame.rows, sem=lambda c: c.get(col, "fin") in cells)
+
+    def abs(self):
+        return _AbsCol(self)
+
+    def __eq__(self, o):
+        import math as _m
+        if isinstance(o, float) and _m.isinf(o):
+            col, cell = self.col, ("+inf" if o > 0 else "-inf")
+            return DMask(f"eq({col},{cell})", self.frame.rows, sem=lambda c: c.get(col, "fin") == cell)
+        return NotImplemented
+
+    __hash__ = None
 
     @property
     def values(self):
@@ -99,6 +155,22 @@ class DCol(Stub):
         if not isinstance(m, DMask) or other is not None:
             raise Unsupported("Series.where form not modelled")
         return DMaskedCol(self, ~m)
+
+
+class _AbsCol(Stub):
+    """column.abs(): only `== np.inf` is asked of it."""
+
+    def __init__(self, col):
+        self.c = col
+
+    def __eq__(self, o):
+        import math as _m
+        if isinstance(o, float) and _m.isinf(o) and o > 0:
+            col = self.c.col
+            return DMask(f"isinf({col})", self.c.frame.rows, sem=lambda c: c.get(col, "fin") in ("+inf", "-inf"))
+        return NotImplemented
+
+    __hash__ = None
 
 
 class DMaskedCol(Stub):
@@ -527,11 +599,29 @@ class PDd(Stub):
 class NPd(Stub):
     nan = float("nan")
 
+    inf = float("inf")
+    NINF = float("-inf")
+    PINF = float("inf")
+
     @staticmethod
     def isfinite(x):
         if isinstance(x, DCol):
-            return DMask(f"finite({x.col})", x.frame.rows)
+            col = x.col
+            return DMask(f"finite({x.col})", x.frame.rows, sem=lambda c: c.get(col, "fin") == "fin")
         raise Unsupported("np.isfinite of " + type(x).__name__)
+
+    @staticmethod
+    def isinf(x):
+        if isinstance(x, DCol):
+            col = x.col
+            return DMask(f"isinf({x.col})", x.frame.rows, sem=lambda c: c.get(col, "fin") in ("+inf", "-inf"))
+        raise Unsupported("np.isinf of " + type(x).__name__)
+
+    @staticmethod
+    def isnan(x):
+        if isinstance(x, DCol):
+            return x.isna()
+        raise Unsupported("np.isnan of " + type(x).__name__)
 
     float64 = Opaque("np.float64")
 
@@ -736,14 +826,20 @@ def judge_predict(o: Dict[str, Any]) -> List[Tuple[str, str]]:
                 if rows != want or "(temperature)" not in src or f"[{p['segment_key']}]" not in src:
                     bad.append(("rows", f"`{col}` of segment `{p['segment_key']}` is computed from `{src}` over `{rows}` (must be that segment's own temperatures with its own sub-model) {ctx}"))
     # masking
-    want_store = ("isna(temperature)", "observed", NAN)
+    # the re-appended rows get no prediction, so each of them whose temperature is not a number - missing, or +-inf, which the finite
+    # filter drops as well - must have its consumption blanked; the NaN stores into `observed` are evaluated on one cell per case
     obs_stores = [s_ for s_ in D["stores"] if s_[1] == "observed"]
     if o["mask_on"] and o["with_observed"]:
-        if want_store not in obs_stores:
+        blank = [s_ for s_ in obs_stores if s_[2] == NAN and getattr(s_[0], "sem", None) is not None]
+        opaque = [s_ for s_ in obs_stores if s_ not in blank]
+        uncovered = [t_ for t_ in ("nan", "+inf", "-inf") if not any(s_[0].sem({"temperature": t_, "observed": "fin"}) for s_ in blank)]
+        if "nan" in uncovered:
             bad.append(("mask", f"with masking on, the re-appended rows reach the result without observed[temperature missing] = NaN (stores found: {D['stores']}): those days keep their consumption although they get no prediction {ctx}"))
-        extra = [s_ for s_ in obs_stores if s_ != want_store]
-        if extra:
-            bad.append(("mask", f"observed of the re-appended rows is also overwritten by {extra} {ctx}"))
+        elif uncovered:
+            bad.append(("mask-nonfinite", f"the re-appended rows include the days whose temperature is {' / '.join(uncovered)} (the finite filter drops them like days without temperature), but their consumption is blanked "
+                                           f"only by {[tuple(s_) for s_ in blank]}: such a day comes back with its usage and no prediction {ctx}"))
+        if opaque:
+            bad.append(("mask", f"observed of the re-appended rows is also overwritten by {opaque} {ctx}"))
     else:
         if obs_stores:
             bad.append(("mask", f"observed is overwritten {obs_stores} although {'masking is off' if o['with_observed'] else 'there is no observed column'} {ctx}"))
